@@ -68,15 +68,51 @@ func c05cm(run *Run) {
 			}
 			wantWeight := map[int]uint32{} // "same address, different attributes": the weight the operations leave on an address
 			unhealthy := map[int]bool{}    // health is a property of the ADDRESS: it survives host-object replacement
+			type hostAttr struct {
+				w        uint32
+				hostname string
+				tls      bool
+				meta     map[string]string
+			}
+			wantAttr := map[int]hostAttr{} // what the operations leave on an address (metadata, hostname, tls flag, weight)
 			cfgs := func(l []int) []v2.Host {
 				var out []v2.Host
 				batchSeen := map[int]bool{}
 				for _, a := range l {
-					w := uint32(1 + r.Intn(5))
-					out = append(out, v2.Host{HostConfig: v2.HostConfig{Address: addrOf(a), Weight: w}})
+					at, had := wantAttr[a]
+					switch x := r.Intn(10); {
+					case had && x < 4: // re-labelled by ADDING a key, everything else as before
+						m := map[string]string{}
+						for _, k := range []string{"k1", "k2", "k3"} {
+							if v, ok := at.meta[k]; ok {
+								m[k] = v
+							}
+						}
+						for _, k := range []string{"k1", "k2", "k3"} {
+							if _, ok := m[k]; !ok {
+								m[k] = []string{"a", "b", "c"}[r.Intn(3)]
+								break
+							}
+						}
+						at.meta = m
+					case had && x < 6: // unchanged
+					default:
+						at = hostAttr{w: uint32(1 + r.Intn(5)), hostname: fmt.Sprintf("h%d", r.Intn(3)), tls: r.Pct(30), meta: map[string]string{}}
+						for _, k := range []string{"k1", "k2", "k3"} {
+							if r.Pct(40) {
+								at.meta[k] = []string{"a", "b", "c"}[r.Intn(3)]
+							}
+						}
+					}
+					m := map[string]string{}
+					for k, v := range at.meta {
+						m[k] = v
+					}
+					out = append(out, v2.Host{HostConfig: v2.HostConfig{Address: addrOf(a), Weight: at.w, Hostname: at.hostname, TLSDisable: at.tls}, MetaData: api.Metadata(m)})
 					if !batchSeen[a] { // NewHostSet keeps the first object of an address inside one batch
 						batchSeen[a] = true
-						wantWeight[a] = w
+						wantWeight[a] = at.w
+						wantAttr[a] = at
 					}
 				}
 				return out
@@ -165,6 +201,7 @@ func c05cm(run *Run) {
 				dup := false
 				seen := map[int]bool{}
 				staleAttr := ""
+				staleMeta := ""
 				anyHealthy := false
 				snap.HostSet().Range(func(h types.Host) bool {
 					a := noOf(h.AddressString())
@@ -175,6 +212,18 @@ func c05cm(run *Run) {
 					got = append(got, a)
 					if w, ok := wantWeight[a]; ok && h.Weight() != w && staleAttr == "" {
 						staleAttr = fmt.Sprintf("addr %d is published with weight %d, the operations leave weight %d on it", a, h.Weight(), w)
+					}
+					if at, ok := wantAttr[a]; ok {
+						cfg := h.Config()
+						if fmt.Sprint(map[string]string(h.Metadata())) != fmt.Sprint(at.meta) && staleMeta == "" {
+							staleMeta = fmt.Sprintf("metadata|addr %d is published with labels %v, the live host reports %v", a, at.meta, h.Metadata())
+						}
+						if h.Hostname() != at.hostname && staleMeta == "" {
+							staleMeta = fmt.Sprintf("hostname|addr %d is published with hostname %q, the live host reports %q", a, at.hostname, h.Hostname())
+						}
+						if cfg.TLSDisable != at.tls && staleMeta == "" {
+							staleMeta = fmt.Sprintf("tls|addr %d is published with tls_disable=%v, the live host reports %v", a, at.tls, cfg.TLSDisable)
+						}
 					}
 					if h.Health() == unhealthy[a] && staleAttr == "" {
 						staleAttr = fmt.Sprintf("addr %d is published with Health()=%v, the address is unhealthy=%v", a, h.Health(), unhealthy[a])
@@ -189,6 +238,10 @@ func c05cm(run *Run) {
 				}
 				rep := map[string]interface{}{"kind": "cluster-manager", "policy": pol.name, "history": append([]string{}, log...), "published": got}
 				// ---- the property itself
+				if staleMeta != "" {
+					parts := strings.SplitN(staleMeta, "|", 2)
+					fail("lb:hostset:stale-host-attributes:"+parts[0], fmt.Sprintf("%s: %s after: %s", pol.name, parts[1], strings.Join(log, "; ")), rep)
+				}
 				if staleAttr != "" {
 					fail("lb:hostset:stale-host-attributes", fmt.Sprintf("%s: %s after: %s", pol.name, staleAttr, strings.Join(log, "; ")), rep)
 				}
